@@ -210,6 +210,21 @@ func cmdMockLife(args []string) {
 		var r *lint.LintResult
 		esc := ""
 		depDiffers := ""
+		reused := ""
+		// the same lint value used for a second run: it must construct (and configure) a new instance again - every run of the
+		// rule is made on a fresh instance, not only the first one of a lint value
+		again := func(run func()) {
+			saveLog, saveInst := append([]string{}, log...), inst
+			func() {
+				defer func() { recover() }()
+				run()
+			}()
+			second := log[len(saveLog):]
+			if len(saveLog) > 0 && !reflect.DeepEqual(append([]string{}, second...), saveLog) {
+				reused = fmt.Sprintf("second run through the same lint value made the calls %v, the first %v", second, saveLog)
+			}
+			log, inst = saveLog, saveInst
+		}
 		func() {
 			defer func() {
 				if p := recover(); p != nil {
@@ -256,6 +271,7 @@ func cmdMockLife(args []string) {
 					return lmCert{mk}
 				}}
 				r = l.Execute(cp, cfg)
+				again(func() { l.Execute(cp, cfg) })
 				if i%5 == 0 && esc == "" {
 					// the deprecated lint.Lint value: used once under another window, then given this case's window and used again
 					other := md
@@ -290,6 +306,7 @@ func cmdMockLife(args []string) {
 					return lmCRL{mk}
 				}}
 				r = l.Execute(&cp, cfg)
+				again(func() { l.Execute(&cp, cfg) })
 			default:
 				cp := *baseOCSP
 				cp.NextUpdate = t
@@ -302,6 +319,7 @@ func cmdMockLife(args []string) {
 					return lmOCSP{mk}
 				}}
 				r = l.Execute(&cp, cfg)
+				again(func() { l.Execute(&cp, cfg) })
 			}
 		}()
 		got := ev.M{"called": log, "inst": inst, "escaped": esc != "", "nil": r == nil}
@@ -334,6 +352,9 @@ func cmdMockLife(args []string) {
 			if inst != 1 || pos("construct") > pos("execute") || (lc.Cfgable && (pos("configure") < 0 || pos("configure") > pos("execute"))) {
 				why = "body not run on a fresh, freshly configured instance"
 			}
+		}
+		if reused != "" && why == "" {
+			why = "a later run of the same lint value is not made on a fresh, freshly configured instance: " + reused
 		}
 		switch {
 		case lc.PC == "escaped" && lc.Why == "escape":
